@@ -75,7 +75,10 @@ Print Assumptions C07_refuted_neg_len.
 
 (* ---- the repaired signature grammar (design/C07.grammar.fix.diff: "(" list ")" parsed once, the
    struct definition optional; model parse_m, chosen by the observed grammar text, TieC09) ---- *)
-(* at most 30 parser invocations per character of the input, plus 24: every string, accepted or not *)
+(* at most 30 parser invocations per character of the input, plus 24: every string, accepted or not.
+   This bounds TIME.  It says nothing about the goroutine STACK, which the Go parser uses in proportion
+   to the nesting depth: finding sig_parse_stack_unbounded (a 2 MB signature of nested "[" overflows the
+   1 GB stack limit) lives outside this statement and is witnessed by the harness on every run. *)
 Theorem C07_parse_merged_linear : forall s, parse_steps_m s <= 30 * N.of_nat (String.length s) + 24.
 Proof. exact parse_steps_m_linear. Qed.
 Print Assumptions C07_parse_merged_linear.
